@@ -270,7 +270,868 @@ def translate():
     parts.append('/-- Poisson ratio from the bulk and shear moduli (IsotropicVolterraDislocation.solve) -/\n'
                  f'def isoNu {{K : Type}} {CLS}\n    (bulk mu : K) : K :=\n  {s}\n')
     parts.append('end Atomman.Gen\n')
-    return {'IsoVolterra': '\n'.join(parts)}
+    return {'IsoVolterra': '\n'.join(parts), 'StrohSource': translate_source()}
+
+
+# ==========================================================================================
+# source tie, round 5: Stroh.py, VolterraDislocation.py, solve_volterra_dislocation.py, dislocation_system_transform.py,
+# the acceptance tests of IsotropicVolterraDislocation.solve and ElasticConstants.transform -> Generated/StrohSource.lean
+# ==========================================================================================
+SRC_STROH = 'atomman/defect/Stroh.py'
+SRC_BASE = 'atomman/defect/VolterraDislocation.py'
+SRC_DISP = 'atomman/defect/solve_volterra_dislocation.py'
+SRC_DST = 'atomman/defect/dislocation_system_transform.py'
+SRC_EC = 'atomman/core/ElasticConstants.py'
+
+
+class Arr:
+    """an array-valued expression, per field point: `dims` (sizes 3 / 6), `fn(index names) -> Lean term`."""
+
+    def __init__(self, dims, fn):
+        self.dims = tuple(dims)
+        self.fn = fn
+
+
+def _lty(dims):
+    s = 'F'
+    for d in reversed(dims):
+        s = f'Fin {d} → {s}'
+    return s
+
+
+def _flit(v):
+    fr_ = Fraction(v)
+    n, d = fr_.numerator, fr_.denominator
+    s = f'(({abs(n)} : Nat) : F)'
+    if d != 1:
+        s = f'({s} / (({d} : Nat) : F))'
+    if n < 0:
+        s = f'(-{s})'
+    return s
+
+
+def _lstr(s):
+    return '"' + s.replace('\\', '\\\\').replace('"', '\\"').replace('\n', '\\n') + '"'
+
+
+SELF_ARR = {'self.m': ('m', (3,)), 'self.n': ('n', (3,)), 'self.burgers': ('b', (3,)), 'self.p': ('p', (6,)),
+            'self.k': ('k', (6,)), 'self.A': ('A', (6, 3)), 'self.L': ('L', (6, 3)), 'self.C.Cijkl': ('C', (3, 3, 3, 3)),
+            'self.K_tensor': ('Kt', (3, 3))}
+
+
+class ArrTr:
+    """numpy expressions of the Stroh / orientation code -> Lean terms over explicit index sums (`sum3`, `sum6`)."""
+
+    def __init__(self, env, what):
+        self.env = dict(env)
+        self.cnt = 0
+        self.what = what
+
+    def bad(self, msg):
+        raise TranslationError(f'{self.what}: {msg}')
+
+    def fresh(self):
+        self.cnt += 1
+        return f'i{self.cnt}'
+
+    @staticmethod
+    def ref(name, dims):
+        if not dims:
+            return Arr((), lambda ix: name)
+        return Arr(dims, lambda ix: '(' + name + ' ' + ' '.join(ix) + ')')
+
+    def lam(self, a):
+        if not a.dims:
+            return a.fn([])
+        ix = [self.fresh() for _ in a.dims]
+        return '(fun ' + ' '.join(ix) + ' => ' + a.fn(ix) + ')'
+
+    def ssum(self, d, var, body):
+        if d not in (3, 6):
+            self.bad(f'sum over an axis of length {d}')
+        return f'(sum{d} fun {var} => {body})'
+
+    def binop(self, op, a, b):
+        r = max(len(a.dims), len(b.dims))
+        dims = []
+        for t in range(1, r + 1):
+            da = a.dims[-t] if t <= len(a.dims) else None
+            db = b.dims[-t] if t <= len(b.dims) else None
+            if da is not None and db is not None and da != db:
+                self.bad(f'shapes {a.dims} and {b.dims} do not broadcast')
+            dims.append(da if da is not None else db)
+        dims = tuple(reversed(dims))
+
+        def fn(ix, a=a, b=b):
+            xa = a.fn(ix[len(ix) - len(a.dims):])
+            xb = b.fn(ix[len(ix) - len(b.dims):])
+            return f'({xa} {op} {xb})'
+        return Arr(dims, fn)
+
+    def einsum(self, spec, ops):
+        spec = spec.replace(' ', '')
+        if '->' in spec:
+            ins, out = spec.split('->')
+        else:
+            ins, out = spec, None
+        terms = [t[3:] if t.startswith('...') else t for t in ins.split(',')]
+        if out is not None and out.startswith('...'):
+            out = out[3:]
+        if len(terms) != len(ops):
+            self.bad(f'einsum {spec!r} with {len(ops)} operands')
+        size = {}
+        order = []
+        for t, o in zip(terms, ops):
+            if len(t) != len(o.dims) or not t.isalpha() and t != '':
+                self.bad(f'einsum term {t!r} for an operand of shape {o.dims}')
+            for ch, d in zip(t, o.dims):
+                if size.setdefault(ch, d) != d:
+                    self.bad(f'einsum index {ch} has two lengths')
+                if ch not in order:
+                    order.append(ch)
+        if out is None:
+            allch = ''.join(terms)
+            out = ''.join(sorted(ch for ch in set(allch) if allch.count(ch) == 1))
+        if len(set(out)) != len(out) or any(ch not in size for ch in out):
+            self.bad(f'einsum output {out!r}')
+        summed = [ch for ch in order if ch not in out]
+
+        def fn(ix, terms=terms, ops=ops, out=out, summed=summed, size=size):
+            name = dict(zip(out, ix))
+            for ch in summed:
+                name[ch] = self.fresh()
+            body = ' * '.join(o.fn([name[ch] for ch in t]) for t, o in zip(terms, ops))
+            for ch in reversed(summed):
+                body = self.ssum(size[ch], name[ch], body)
+            return body if summed else f'({body})'
+        return Arr(tuple(size[ch] for ch in out), fn)
+
+    def dot(self, a, b):
+        if not a.dims or not b.dims:
+            self.bad('dot with a scalar')
+        d = a.dims[-1]
+        kb = 0 if len(b.dims) == 1 else len(b.dims) - 2
+        if b.dims[kb] != d:
+            self.bad(f'dot of shapes {a.dims} and {b.dims}')
+        dims = a.dims[:-1] + b.dims[:kb] + b.dims[kb + 1:]
+
+        def fn(ix, a=a, b=b, kb=kb, d=d):
+            v = self.fresh()
+            ia = list(ix[:len(a.dims) - 1]) + [v]
+            rest = list(ix[len(a.dims) - 1:])
+            ib = rest[:kb] + [v] + rest[kb:]
+            return self.ssum(d, v, f'{a.fn(ia)} * {b.fn(ib)}')
+        return Arr(dims, fn)
+
+    def tr(self, node):
+        u = ast.unparse(node)
+        if isinstance(node, ast.Constant) and isinstance(node.value, (int, float)) and not isinstance(node.value, bool):
+            return Arr((), lambda ix, v=node.value: _flit(v))
+        if isinstance(node, ast.Name):
+            if node.id not in self.env:
+                self.bad(f'unknown name {node.id}')
+            return self.env[node.id]
+        if u in SELF_ARR and u.split('.', 1)[0] == 'self' and ('self:' + SELF_ARR[u][0]) in self.env:
+            return self.env['self:' + SELF_ARR[u][0]]
+        if ('attr:' + u) in self.env:
+            return self.env['attr:' + u]
+        if u == 'np.pi' and 'np.pi' in self.env:
+            return self.env['np.pi']
+        if isinstance(node, ast.Attribute) and node.attr == 'T':
+            a = self.tr(node.value)
+            if len(a.dims) != 2:
+                self.bad(f'.T of an array of shape {a.dims}')
+            return Arr((a.dims[1], a.dims[0]), lambda ix, a=a: a.fn([ix[1], ix[0]]))
+        if isinstance(node, ast.UnaryOp) and isinstance(node.op, ast.USub):
+            a = self.tr(node.operand)
+            return Arr(a.dims, lambda ix, a=a: f'(-{a.fn(ix)})')
+        if isinstance(node, ast.BinOp):
+            if isinstance(node.op, ast.Pow):
+                if ast.unparse(node.left) == 'k' and isinstance(node.right, ast.Constant) and node.right.value == 0.5 \
+                        and 'sqrt:k' in self.env:
+                    return self.env['sqrt:k']
+                self.bad(f'power {u}')
+            ops = {ast.Add: '+', ast.Sub: '-', ast.Mult: '*', ast.Div: '/'}
+            if type(node.op) not in ops:
+                self.bad(f'operator in {u}')
+            return self.binop(ops[type(node.op)], self.tr(node.left), self.tr(node.right))
+        if isinstance(node, ast.Call):
+            f = ast.unparse(node.func)
+            args = node.args
+            if f == 'np.einsum' and not node.keywords and args and isinstance(args[0], ast.Constant) \
+                    and isinstance(args[0].value, str):
+                return self.einsum(args[0].value, [self.tr(a) for a in args[1:]])
+            if f == 'np.dot' and len(args) == 2 and not node.keywords:
+                return self.dot(self.tr(args[0]), self.tr(args[1]))
+            if isinstance(node.func, ast.Attribute) and node.func.attr == 'dot' and len(args) == 1 and not node.keywords:
+                return self.dot(self.tr(node.func.value), self.tr(args[0]))
+            if f == 'np.outer' and len(args) == 2 and not node.keywords:
+                a, b = self.tr(args[0]), self.tr(args[1])
+                return Arr(a.dims + b.dims, lambda ix, a=a, b=b: f'({a.fn(ix[:len(a.dims)])} * {b.fn(ix[len(a.dims):])})')
+            if f == 'np.cross' and len(args) == 2 and not node.keywords:
+                a, b = self.tr(args[0]), self.tr(args[1])
+                if a.dims != (3,) or b.dims != (3,):
+                    self.bad(f'cross of shapes {a.dims}, {b.dims}')
+                return Arr((3,), lambda ix, a=a, b=b: f'(cross {self.lam(a)} {self.lam(b)} {ix[0]})')
+            if f == 'np.linalg.inv' and len(args) == 1 and not node.keywords and ('inv:' + ast.unparse(args[0])) in self.env:
+                return self.env['inv:' + ast.unparse(args[0])]
+            if f == 'np.log' and len(args) == 1 and not node.keywords and ('log:' + ast.unparse(args[0])) in self.env:
+                return self.env['log:' + ast.unparse(args[0])]
+            if f == 'np.linalg.norm' and len(args) == 1 and not node.keywords and ('norm:' + ast.unparse(args[0])) in self.env:
+                return self.env['norm:' + ast.unparse(args[0])]
+            if f == 'np.array' and len(args) == 1 and not node.keywords and isinstance(args[0], ast.List) \
+                    and len(args[0].elts) == 3:
+                rows = [self.tr(e) for e in args[0].elts]
+                if any(r.dims != (3,) for r in rows):
+                    self.bad(f'np.array of rows of shapes {[r.dims for r in rows]}')
+                return Arr((3, 3), lambda ix, rows=rows: '(rows3 ' + ' '.join(self.lam(r) for r in rows) + f' {ix[0]} {ix[1]})')
+            if f == 'np.abs' and len(args) == 1 and not node.keywords:
+                a = self.tr(args[0])
+                return Arr(a.dims, lambda ix, a=a: f'(absF {a.fn(ix)})')
+            if f == 'abs' and len(args) == 1 and not node.keywords:
+                a = self.tr(args[0])
+                if a.dims:
+                    self.bad('abs of an array')
+                return Arr((), lambda ix, a=a: f'(absF {a.fn([])})')
+            if isinstance(node.func, ast.Attribute) and node.func.attr == 'max' and not args and not node.keywords:
+                a = self.tr(node.func.value)
+                if a.dims == (3,):
+                    # the model's fold for `.max()` of three numbers
+                    return Arr((), lambda ix, a=a: f'(listMax {a.fn(["0"])} [{a.fn(["1"])}, {a.fn(["2"])}])')
+                self.bad(f'.max() of an array of shape {a.dims}')
+        self.bad(f'unsupported expression {u[:80]}')
+
+    def let(self, name, node):
+        a = self.tr(node)
+        self.cnt = 0
+        term = self.lam(a)
+        self.env[name] = self.ref(name, a.dims)
+        return f'  let {name} : {_lty(a.dims)} := {term}\n'
+
+
+def _fn_in(tree, name, cls=None):
+    scope = tree.body
+    if cls is not None:
+        c = [n for n in tree.body if isinstance(n, ast.ClassDef) and n.name == cls]
+        if len(c) != 1:
+            raise TranslationError(f'class {cls} not found')
+        scope = c[0].body
+    f = [n for n in scope if isinstance(n, ast.FunctionDef) and n.name == name]
+    if not f:
+        raise TranslationError(f'{cls}.{name} not found')
+    return f
+
+
+def _sig(fn, skip_self=True):
+    a = fn.args
+    if a.vararg or a.kwarg or a.kwonlyargs or a.posonlyargs:
+        raise TranslationError(f'{fn.name}: signature with * / ** / keyword-only parameters')
+    names = [x.arg for x in a.args]
+    if skip_self:
+        if not names or names[0] != 'self':
+            raise TranslationError(f'{fn.name}: no self')
+        names = names[1:]
+    defs = [''] * (len(names) - len(a.defaults)) + [ast.unparse(d) for d in a.defaults]
+    return list(zip(names, defs))
+
+
+def _lsig(sig):
+    return '[' + ', '.join(f'({_lstr(n)}, {_lstr(d)})' for n, d in sig) + ']'
+
+
+def _call_forward(call):
+    """positional argument texts and (keyword, value text) pairs of a call"""
+    if any(k.arg is None for k in call.keywords) or any(isinstance(a, ast.Starred) for a in call.args):
+        raise TranslationError(f'call with * / **: {ast.unparse(call)[:60]}')
+    return [ast.unparse(a) for a in call.args], [(k.arg, ast.unparse(k.value)) for k in call.keywords]
+
+
+def _lforward(pos, kws):
+    return '([' + ', '.join(_lstr(p) for p in pos) + '], ' + _lsig(kws) + ')'
+
+
+def _updn(node, what):
+    """`np.array([1, -1, 1, -1, 1, -1])` -> the six literals"""
+    if not (isinstance(node, ast.Call) and ast.unparse(node.func) == 'np.array' and len(node.args) == 1
+            and not node.keywords and isinstance(node.args[0], ast.List) and len(node.args[0].elts) == 6):
+        raise TranslationError(f'{what}: updn is not a literal array of six numbers')
+    vals = []
+    for e in node.args[0].elts:
+        try:
+            v = ast.literal_eval(e)
+        except Exception:
+            raise TranslationError(f'{what}: updn entry {ast.unparse(e)}')
+        if isinstance(v, bool) or not isinstance(v, (int, float)):
+            raise TranslationError(f'{what}: updn entry {v!r}')
+        vals.append(v)
+    return vals
+
+
+def _updn_def(name, vals):
+    rows = ''.join(f'  | {i} => {_flit(v)}\n' for i, v in enumerate(vals[:5]))
+    return (f'/-- the literal `updn` array of `{name}` -/\n'
+            f'def updn_{name} (a : Fin 6) : F :=\n  match a.val with\n{rows}  | _ => {_flit(vals[5])}\n\n')
+
+
+FIELD_PARAMS = '(pi I : F) (m n b : Vec F) (C : Ten4 F) (p k : Fin 6 → F) (A L : Fin 6 → Vec F)'
+
+
+def _field_env():
+    env = {'self:' + nm: ArrTr.ref(nm, dims) for nm, dims in SELF_ARR.values() if nm != 'Kt'}
+    env['np.pi'] = ArrTr.ref('pi', ())
+    return env
+
+
+def _is_ii(st):
+    return ast.unparse(st) == 'ii = np.array([1j])'
+
+
+def _stroh_field(fn, var, coef_names):
+    """displacement / strain / stress of Stroh -> (updn literals, Lean lets, result name, pins)"""
+    tr = ArrTr(_field_env(), f'Stroh.{fn.name}')
+    lets = ''
+    updn = None
+    pins = []
+    tail = False
+    for st in strip_doc(fn.body):
+        u = ast.unparse(st)
+        if tail:
+            tr.bad('statement after the return')
+        if _is_tail_return(st, var):
+            tail = True
+            continue
+        if not (isinstance(st, ast.Assign) and len(st.targets) == 1 and isinstance(st.targets[0], ast.Name)):
+            tr.bad(f'unsupported statement {u[:70]}')
+        nm = st.targets[0].id
+        if _is_ii(st):
+            tr.env['ii'] = ArrTr.ref('I', ())
+        elif nm == 'ii':
+            tr.bad(f'ii is no longer the imaginary unit: {u}')
+        elif nm == 'updn':
+            updn = _updn(st.value, f'Stroh.{fn.name}')
+            tr.env['updn'] = ArrTr.ref(f'updn_{fn.name}', (6,))
+        elif nm == 'eta':
+            if u != 'eta = self.eta(pos)':
+                tr.bad(f'eta is no longer self.eta(pos): {u}')
+            tr.env['eta'] = ArrTr.ref('η', (6,))
+            tr.env['log:eta'] = ArrTr.ref('lnη', (6,))
+        elif nm == var and u == f'{var} = real_if_close({var}, self.tol)':
+            pins.append(u)
+        else:
+            lets += tr.let(nm, st.value)
+    if not tail:
+        tr.bad('single-point / array return not found')
+    if updn is None or var not in tr.env or not pins:
+        tr.bad('updn / result / relative real_if_close not found')
+    return updn, lets, pins
+
+
+def _assert_close(st, tr):
+    """`assert np.allclose(LHS, TARGET, atol=tol)` -> (Arr LHS, target kind)"""
+    if not (isinstance(st, ast.Assert) and isinstance(st.test, ast.Call) and ast.unparse(st.test.func) == 'np.allclose'
+            and len(st.test.args) == 2 and [(k.arg, ast.unparse(k.value)) for k in st.test.keywords] == [('atol', 'tol')]):
+        tr.bad(f'self-check is not `assert np.allclose(x, y, atol=tol)`: {ast.unparse(st)[:80]}')
+    tgt = ast.unparse(st.test.args[1])
+    kinds = {"np.identity(3, dtype='complex128')": ('kron', (3, 3)), "np.zeros((3, 3), dtype='complex128')": ('zero', (3, 3)),
+             "np.identity(6, dtype='complex128')": ('kron6', (6, 6))}
+    if tgt not in kinds:
+        tr.bad(f'self-check target {tgt}')
+    a = tr.tr(st.test.args[0])
+    if a.dims != kinds[tgt][1]:
+        tr.bad(f'self-check of shape {a.dims} against {tgt}')
+    return a, kinds[tgt][0]
+
+
+def _stroh_solve(fn, out, pins):
+    tr = ArrTr({'self:m': ArrTr.ref('m', (3,)), 'self:n': ArrTr.ref('n', (3,))}, 'Stroh.solve')
+    tr.env['Cijkl'] = ArrTr.ref('C', (3, 3, 3, 3))
+    body = strip_doc(fn.body)
+    if not (isinstance(body[0], ast.Expr) and isinstance(body[0].value, ast.Call)
+            and ast.unparse(body[0].value.func) == 'VolterraDislocation.solve'):
+        tr.bad('does not start with the base class solve')
+    pos, kws = _call_forward(body[0].value)
+    out.append('/-- `Stroh.solve` -> `VolterraDislocation.solve`: positional and keyword arguments -/\n'
+               f'def strohSuper : List String × List (String × String) := {_lforward(pos, kws)}\n\n')
+    want_head = ['Cmax = np.abs(self.C.Cijkl).max()', 'Cijkl = self.C.Cijkl / Cmax']
+    if [ast.unparse(s) for s in body[1:3]] != want_head:
+        tr.bad('the stiffness is no longer divided by its largest magnitude as expected')
+    pins += want_head
+    lets = ''
+    quad = []
+    i = 3
+    while i < len(body) and isinstance(body[i], ast.Assign) and isinstance(body[i].targets[0], ast.Name) \
+            and body[i].targets[0].id in ('mm', 'mn', 'nm', 'nn', 'NA', 'NB', 'NC', 'ND'):
+        nm = body[i].targets[0].id
+        if nm == 'NB':
+            tr.env['inv:nn'] = ArrTr.ref('nnInv', (3, 3))
+        lets += tr.let(nm, body[i].value)
+        quad.append(nm)
+        i += 1
+    if sorted(quad) != sorted(['mm', 'mn', 'nm', 'nn', 'NA', 'NB', 'NC', 'ND']):
+        tr.bad(f'quadrants of N: {quad}')
+    par = '(m n : Vec F) (C : Ten4 F) (nnInv : Mat F)'
+    for nm in ('mm', 'mn', 'nm', 'nn'):
+        out.append(f'/-- `{nm}` of Stroh.solve -/\ndef {nm} (m n : Vec F) (C : Ten4 F) : Mat F :=\n'
+                   + ''.join(l for l in lets.splitlines(True) if l.split()[1] in ('mm', 'mn', 'nm', 'nn')) + f'  {nm}\n\n')
+    for nm in ('NA', 'NB', 'NC', 'ND'):
+        out.append(f'/-- quadrant `{nm}` of N (`nnInv` = np.linalg.inv(nn)) -/\ndef {nm} {par} : Mat F :=\n{lets}  {nm}\n\n')
+    # N = [[NA, NB], [NC, ND]], eigenvectors split into A (first three) and L (last three components)
+    st = body[i]
+    if ast.unparse(st) != 'N = np.array(np.vstack((np.hstack((NA, NB)), np.hstack((NC, ND)))))':
+        # read the block layout instead of insisting on the text
+        try:
+            v = st.value.args[0].args[0].elts
+            lay = [[ast.unparse(e) for e in h.args[0].elts] for h in v]
+            assert ast.unparse(st.targets[0]) == 'N' and all(len(r) == 2 for r in lay) and len(lay) == 2
+            assert all(x in ('NA', 'NB', 'NC', 'ND') for r in lay for x in r)
+        except Exception:
+            tr.bad(f'layout of N: {ast.unparse(st)[:80]}')
+    else:
+        lay = [['NA', 'NB'], ['NC', 'ND']]
+    i += 1
+    want = ['eig = np.linalg.eig(N)', 'p = eig[0]', 'eigvec = np.transpose(eig[1])']
+    if [ast.unparse(s) for s in body[i:i + 3]] != want:
+        tr.bad('eigen-solver call / unpacking changed')
+    pins += want
+    i += 3
+    halves = {}
+    for st in body[i:i + 2]:
+        u = ast.unparse(st)
+        for nm, sl in (('A', ':3'), ('L', '3:')):
+            if u == f'{nm} = np.array([' + ', '.join(f'eigvec[{a}, {sl}]' for a in range(6)) + '])':
+                halves[nm] = sl
+    if halves != {'A': ':3', 'L': '3:'}:
+        tr.bad('split of the eigenvectors into A (first half) and L (second half) changed')
+    i += 2
+    for row, nm, vec in ((0, 'eigResTop', 'A'), (1, 'eigResBot', 'L')):
+        out.append(f'/-- `N v - p v`, {"upper" if row == 0 else "lower"} half, for `v = (A, L)` and `N = {lay}` -/\n'
+                   f'def {nm} {par} (p : F) (A L : Vec F) : Vec F :=\n{lets}'
+                   f'  fun i => (sum3 fun j => {lay[row][0]} i j * A j) + (sum3 fun j => {lay[row][1]} i j * L j) - p * {vec} i\n\n')
+    # k
+    tr2 = ArrTr({'A': ArrTr.ref('A', (6, 3)), 'L': ArrTr.ref('L', (6, 3))}, 'Stroh.solve')
+    st = body[i]
+    if not (isinstance(st, ast.Assign) and ast.unparse(st.targets[0]) == 'k'):
+        tr.bad('normalisation factor k not found')
+    klet = tr2.let('k', st.value)
+    out.append(f'/-- `k` of Stroh.solve -/\ndef kNorm (A L : Fin 6 → Vec F) : Fin 6 → F :=\n{klet}  k\n\n')
+    i += 1
+    # the four self-checks
+    st = body[i]
+    if not (isinstance(st, ast.Try) and len(st.handlers) == 1 and not st.orelse and not st.finalbody
+            and ast.unparse(st.handlers[0].type) == 'AssertionError' and len(st.handlers[0].body) == 1
+            and isinstance(st.handlers[0].body[0], ast.Raise)
+            and ast.unparse(st.handlers[0].body[0].exc.func) == 'ValueError'):
+        tr.bad('self-checks are no longer `try: asserts except AssertionError: raise ValueError`')
+    tr3 = ArrTr({'A': ArrTr.ref('A', (6, 3)), 'L': ArrTr.ref('L', (6, 3)), 'k': ArrTr.ref('k', (6,)),
+                 'sqrt:k': ArrTr.ref('sk', (6,))}, 'Stroh.solve self-checks')
+    chk = []
+    for q, a in enumerate(st.body):
+        arr, kind = _assert_close(a, tr3)
+        tr3.cnt = 0
+        nm = f'chk{q + 1}'
+        args = '(k sk : Fin 6 → F) (A L : Fin 6 → Vec F)'
+        out.append(f'/-- left-hand side of self-check {q + 1} of Stroh.solve (`sk` = k**.5) -/\n'
+                   f'def {nm} {args} : {_lty(arr.dims)} :=\n  {tr3.lam(arr)}\n\n')
+        chk.append((nm, kind, arr.dims))
+    if [c[1] for c in chk] != ['kron', 'zero', 'zero', 'kron6']:
+        tr.bad(f'self-check targets {[c[1] for c in chk]}')
+    i += 1
+    want = ['self.__p = p', 'self.__A = A', 'self.__L = L * Cmax', 'self.__k = k / Cmax',
+            "if self.K_tensor.dtype == 'complex128':\n    raise ValueError('Solution not real: check elastic constants')"]
+    if [ast.unparse(s) for s in body[i:]] != want:
+        tr.bad('storing p, A, L, k (units restored) / the real-K test changed: ' + repr([ast.unparse(s)[:40] for s in body[i:]]))
+    pins += want
+    return chk
+
+
+ROUTE_NAMES = {'ξ_uvw': 'ξ', 'slip_hkl': 'hkl'}
+
+
+def _route_cond(node):
+    if isinstance(node, ast.BoolOp):
+        op = {ast.Or: ' || ', ast.And: ' && '}[type(node.op)]
+        return '(' + op.join(_route_cond(v) for v in node.values) + ')'
+    if isinstance(node, ast.Compare) and len(node.ops) == 1 and isinstance(node.left, ast.Name) \
+            and isinstance(node.comparators[0], ast.Constant) and node.comparators[0].value is None \
+            and isinstance(node.ops[0], (ast.Is, ast.IsNot)):
+        nm = node.left.id
+        pos = isinstance(node.ops[0], ast.IsNot)
+        if nm in ROUTE_NAMES:
+            return ROUTE_NAMES[nm] if pos else f'(!{ROUTE_NAMES[nm]})'
+        if nm in ('transform', 'axes'):
+            return f'{nm}.isSome' if pos else f'{nm}.isNone'
+    raise TranslationError(f'VolterraDislocation.solve: condition {ast.unparse(node)} in the option handling')
+
+
+def _route_block(stmts, ind):
+    sp = '  ' * ind
+    s = ''
+    for st in stmts:
+        u = ast.unparse(st)
+        if isinstance(st, ast.Assert):
+            s += f'{sp}unless {_route_cond(st.test)} do throw "assert"\n'
+        elif isinstance(st, ast.If):
+            s += f'{sp}if {_route_cond(st.test)} then\n' + _route_block(st.body, ind + 1)
+            if st.orelse:
+                s += f'{sp}else\n' + _route_block(st.orelse, ind + 1)
+        elif u == 'transform = self.__find_transform(ξ_uvw, slip_hkl, m, n, box)':
+            s += f'{sp}transform := some TVal.miller\n'
+        elif u == 'transform = axes':
+            s += f'{sp}transform := axes\n'
+        elif u == 'transform = axes_check(transform)':
+            s += f'{sp}transform := transform.map TVal.check\n'
+        elif u == 'transform = np.eye(3, dtype=float)':
+            s += f'{sp}transform := some TVal.eye\n'
+        else:
+            raise TranslationError(f'VolterraDislocation.solve: statement in the option handling: {u[:80]}')
+    return s
+
+
+def _isclose(node, tr, what):
+    """np.isclose(A, B, atol=T, rtol=0.0) -> (Arr A, Lean B)"""
+    if not (isinstance(node, ast.Call) and ast.unparse(node.func) == 'np.isclose' and len(node.args) == 2
+            and isinstance(node.args[1], ast.Constant)):
+        raise TranslationError(f'{what}: not an isclose test: {ast.unparse(node)[:80]}')
+    kw = {k.arg: ast.unparse(k.value) for k in node.keywords}
+    if kw != {'atol': 'tol', 'rtol': '0.0'}:
+        raise TranslationError(f'{what}: isclose tolerances {kw}')
+    return tr.tr(node.args[0]), _flit(node.args[1].value)
+
+
+def _base_class(tree, out, pins):
+    cls = 'VolterraDislocation'
+    fn = _fn_in(tree, 'solve', cls)[0]
+    init = _fn_in(tree, '__init__', cls)[0]
+    out.append(f'def sigInit : List (String × String) := {_lsig(_sig(init))}\n'
+               f'def sigSolve : List (String × String) := {_lsig(_sig(fn))}\n\n')
+    ib = strip_doc(init.body)
+    if not (len(ib) == 1 and isinstance(ib[0], ast.Expr) and isinstance(ib[0].value, ast.Call)
+            and ast.unparse(ib[0].value.func) == 'self.solve'):
+        raise TranslationError('VolterraDislocation.__init__ is no longer one call of self.solve')
+    out.append(f'def initForward : List String × List (String × String) := {_lforward(*_call_forward(ib[0].value))}\n\n')
+    body = strip_doc(fn.body)
+    us = [ast.unparse(s) for s in body]
+    want0 = ['burgers = np.asarray(burgers, dtype=float)', 'if box is None:\n    box = Box()',
+             'm, n = self.__mn_check(m, n, cart_axes, tol)']
+    if us[:3] != want0 or not isinstance(body[3], ast.If):
+        raise TranslationError('VolterraDislocation.solve: head (burgers array, default box, axis checks) changed')
+    pins += want0
+    route = _route_block([body[3]], 1)
+    out.append('/-- the option handling of `VolterraDislocation.solve`, statement by statement (`ξ`, `hkl` = "is not None") -/\n'
+               'def route {M : Type} (ξ hkl : Bool) (transform0 axes0 : Option M) : Except String (TVal M) := do\n'
+               '  let mut transform : Option (TVal M) := transform0.map TVal.raw\n'
+               '  let axes : Option (TVal M) := axes0.map TVal.raw\n'
+               + route +
+               '  match transform with\n  | some t => pure t\n  | none => throw "unbound"\n\n')
+    # Burgers vector: crystal -> Cartesian -> solver frame -> clean-up; then the medium
+    rest = us[4:]
+    want = ['burgers = miller.vector_crystal_to_cartesian(burgers, box)', 'burgers = transform.dot(burgers)',
+            'burgers[np.isclose(burgers / np.abs(burgers).max(), 0.0, atol=tol)] = 0.0', 'C = C.transform(transform)',
+            'self.__C = C', 'self.__m = m', 'self.__n = n', 'self.__ξ = np.cross(m, n)', 'self.__burgers = burgers',
+            'self.__tol = tol', 'self.__transform = transform']
+    if rest != want:
+        raise TranslationError('VolterraDislocation.solve: Burgers vector / medium / stores changed: '
+                               + repr([r for r in rest if r not in want][:3]))
+    pins += [want[0]] + want[3:]
+    tr = ArrTr({'burgers': ArrTr.ref('b0', (3,)), 'transform': ArrTr.ref('T', (3, 3))}, 'VolterraDislocation.solve')
+    let1 = tr.let('burgers', body[5].value).replace('let burgers', 'let b1')
+    tr.env['burgers'] = ArrTr.ref('b1', (3,))
+    st = body[6]
+    tgt = st.targets[0]
+    if not (isinstance(tgt, ast.Subscript) and ast.unparse(tgt.value) == 'burgers' and isinstance(st.value, ast.Constant)
+            and st.value.value == 0.0 and isinstance(tgt.slice, ast.Call) and ast.unparse(tgt.slice.func) == 'np.isclose'):
+        raise TranslationError('clean-up of the Burgers vector changed')
+    kw = {k.arg: ast.unparse(k.value) for k in tgt.slice.keywords}
+    q = tgt.slice.args[0]
+    if kw != {'atol': 'tol'} or ast.unparse(tgt.slice.args[1]) != '0.0' or not (isinstance(q, ast.BinOp) and isinstance(q.op, ast.Div)
+                                                                               and ast.unparse(q.left) == 'burgers'):
+        raise TranslationError('clean-up of the Burgers vector: test changed')
+    big = tr.tr(q.right)
+    out.append('/-- Burgers vector of `VolterraDislocation.solve`: `b0` = crystal -> Cartesian (`crystalToCart vects b`), rotated, '
+               'entries with `isclose(b / big, 0, atol=tol)` zeroed -/\n'
+               'def orientB (tol : F) (T vects : Mat F) (b : Vec F) : Vec F :=\n'
+               '  let b0 : Vec F := crystalToCart vects b\n' + let1 +
+               f'  fun i => chop tol {big.fn([])} (b1 i)\n\n')
+    # __mn_check
+    mc = _fn_in(tree, '__mn_check', cls)[0]
+    mb = strip_doc(mc.body)
+    if not (len(mb) == 5 and isinstance(mb[0], ast.FunctionDef) and mb[0].name == 'axis_value'
+            and ast.unparse(mb[1]) == 'm = axis_value(m)' and ast.unparse(mb[2]) == 'n = axis_value(n)'
+            and isinstance(mb[3], ast.Assert) and ast.unparse(mb[4]) == 'return (m, n)'):
+        raise TranslationError('__mn_check: structure changed')
+    av = strip_doc(mb[0].body)
+    if not (len(av) == 2 and isinstance(av[0], ast.If) and ast.unparse(av[0].test) == 'isinstance(axis, str)'
+            and ast.unparse(av[1]) == 'return axis'):
+        raise TranslationError('axis_value: structure changed')
+    # the string table
+    node = av[0].body
+    tab = []
+    while node:
+        if not (len(node) == 1 and isinstance(node[0], ast.If) and isinstance(node[0].test, ast.Compare)
+                and ast.unparse(node[0].test.left) == 'axis' and isinstance(node[0].test.ops[0], ast.Eq)
+                and len(node[0].body) == 1 and ast.unparse(node[0].body[0].targets[0]) == 'axis'):
+            raise TranslationError('axis_value: string table changed')
+        key = ast.literal_eval(node[0].test.comparators[0])
+        v = node[0].body[0].value
+        if not (ast.unparse(v.func) == 'np.array' and len(v.args) == 1 and not v.keywords):
+            raise TranslationError('axis_value: string table entry')
+        vec = ast.literal_eval(v.args[0])
+        if len(vec) != 3:
+            raise TranslationError('axis_value: string table entry')
+        tab.append((key, vec))
+        node = node[0].orelse
+    s = '/-- `axis_value`: the table of axis names -/\ndef axisOfStr (s : String) : Option (Vec F) :=\n'
+    for key, vec in tab:
+        s += f'  if s = {_lstr(key)} then some (fun i => match i.val with | 0 => {_flit(vec[0])} | 1 => {_flit(vec[1])} | _ => {_flit(vec[2])}) else\n'
+    out.append(s + '  none\n\n')
+    arr = av[0].orelse
+    ua = [ast.unparse(x) for x in arr]
+    if not (len(arr) == 4 and ua[0] == 'axis = np.array(axis, dtype=float)' and ua[1].startswith('assert axis.shape == (3,)')
+            and isinstance(arr[2], ast.Assert) and isinstance(arr[3], ast.If) and ast.unparse(arr[3].test) == 'cart_axes'
+            and len(arr[3].body) == 1 and isinstance(arr[3].body[0], ast.Assert) and not arr[3].orelse):
+        raise TranslationError('axis_value: checks of an array-valued axis changed')
+    pins += [ua[0], 'assert axis.shape == (3,)']
+    tra = ArrTr({'axis': ArrTr.ref('axis', (3,)), 'norm:axis': ArrTr.ref('nrm', ()), 'm': ArrTr.ref('m', (3,)),
+                 'n': ArrTr.ref('n', (3,))}, '__mn_check')
+    a, bq = _isclose(arr[2].test, tra, 'axis_value')
+    if a.dims != ():
+        raise TranslationError('axis_value: norm test')
+    out.append('/-- unit-norm test of `axis_value` (`nrm` = np.linalg.norm(axis)) -/\n'
+               f'def unitOk (tol nrm : F) : Bool := closeTo tol {_flit(0)} {a.fn([])} {bq}\n\n')
+    t = arr[3].body[0].test
+    if not (isinstance(t, ast.Compare) and isinstance(t.ops[0], ast.Eq) and ast.unparse(t.comparators[0]) == '1'
+            and isinstance(t.left, ast.Call) and isinstance(t.left.func, ast.Attribute) and t.left.func.attr == 'sum'
+            and not t.left.args):
+        raise TranslationError('axis_value: Cartesian-alignment test')
+    a, bq = _isclose(t.left.func.value, tra, 'axis_value')
+    if a.dims != (3,):
+        raise TranslationError('axis_value: Cartesian-alignment test')
+    out.append('/-- `cart_axes`: exactly one component close to 1 -/\n'
+               'def cartOk (tol : F) (axis : Vec F) : Bool :=\n'
+               f'  (count3 fun i => closeTo tol {_flit(0)} {a.fn(["i"])} {bq}) == 1\n\n')
+    a, bq = _isclose(mb[3].test, tra, '__mn_check')
+    if a.dims != ():
+        raise TranslationError('__mn_check: perpendicularity test')
+    out.append('/-- perpendicularity test of `__mn_check` -/\n'
+               f'def perpOk (tol : F) (m n : Vec F) : Bool := closeTo tol {_flit(0)} {a.fn([])} {bq}\n\n')
+    # __find_transform
+    ft = _fn_in(tree, '__find_transform', cls)[0]
+    out.append(_find_transform(strip_doc(ft.body), 'findTransform', 'box.vector_crystal_to_cartesian(ξ_uvw)',
+                               'box.plane_crystal_to_cartesian(slip_hkl)', 'VolterraDislocation.__find_transform'))
+    # K_coeff, preln, character angle, getters
+    for nm, par in (('K_coeff', '(Kt : Mat F) (b : Vec F)'), ('preln', '(pi : F) (Kt : Mat F) (b : Vec F)')):
+        g = strip_doc(_fn_in(tree, nm, cls)[0].body)
+        if not (len(g) == 1 and isinstance(g[0], ast.Return)):
+            raise TranslationError(f'{nm}: body changed')
+        trk = ArrTr({'self:b': ArrTr.ref('b', (3,)), 'self:Kt': ArrTr.ref('Kt', (3, 3)), 'np.pi': ArrTr.ref('pi', ())}, nm)
+        a = trk.tr(g[0].value)
+        if a.dims != ():
+            raise TranslationError(f'{nm}: not a scalar')
+        out.append(f'/-- `{nm}` of VolterraDislocation -/\ndef {nm.replace("_", "")} {par} : F :=\n  {a.fn([])}\n\n')
+    ca = strip_doc(_fn_in(tree, 'characterangle', cls)[0].body)
+    pins.append('characterangle: ' + ' ; '.join(ast.unparse(s) for s in ca))
+    gets = []
+    for nm in ('m', 'n', 'ξ', 'burgers', 'transform', 'tol', 'C'):
+        g = strip_doc(_fn_in(tree, nm, cls)[0].body)
+        gets.append((nm, ' ; '.join(ast.unparse(s) for s in g)))
+    out.append(f'/-- what the getters of the base class return -/\ndef getters : List (String × String) := {_lsig(gets)}\n\n')
+
+
+def _find_transform(body, name, xi_src, n_src, what):
+    us = [ast.unparse(s) for s in body]
+    want = [f'ξ_axis = {xi_src}', 'ξ_axis = ξ_axis / np.linalg.norm(ξ_axis)', f'n_axis = {n_src}']
+    if us[:3] != want or us[-1] != 'return transform':
+        raise TranslationError(f'{what}: Miller conversions / return changed')
+    tr = ArrTr({'ξ_axis': ArrTr.ref('ξ0', (3,)), 'norm:ξ_axis': ArrTr.ref('nrm', ()), 'n_axis': ArrTr.ref('nAxis', (3,)),
+                'm': ArrTr.ref('m', (3,)), 'n': ArrTr.ref('n', (3,))}, what)
+    lets = tr.let('ξ_axis', body[1].value)
+    for st in body[3:-1]:
+        if not (isinstance(st, ast.Assign) and len(st.targets) == 1 and isinstance(st.targets[0], ast.Name)):
+            raise TranslationError(f'{what}: statement {ast.unparse(st)[:60]}')
+        lets += tr.let(st.targets[0].id, st.value)
+    if tr.env.get('transform') is None or tr.env['transform'].dims != (3, 3):
+        raise TranslationError(f'{what}: transform not built')
+    return (f'/-- `{what}` (`ξ0` = {xi_src}, `nrm` its norm, `nAxis` = {n_src}) -/\n'
+            f'def {name} (m n nAxis ξ0 : Vec F) (nrm : F) : Mat F :=\n{lets}  transform\n\n')
+
+
+def _dispatcher(tree, out):
+    fn = _fn_in(tree, 'solve_volterra_dislocation')[0]
+    out.append(f'def sigDispatch : List (String × String) := {_lsig(_sig(fn, skip_self=False))}\n\n')
+    body = strip_doc(fn.body)
+    if not (len(body) == 1 and isinstance(body[0], ast.Try)):
+        raise TranslationError('solve_volterra_dislocation is no longer one try statement')
+    t = body[0]
+    if t.orelse or t.finalbody or len(t.handlers) != 1 or len(t.body) != 1 or len(t.handlers[0].body) != 1 \
+            or not isinstance(t.body[0], ast.Return) or not isinstance(t.handlers[0].body[0], ast.Return) \
+            or t.handlers[0].type is None or not isinstance(t.body[0].value, ast.Call) \
+            or not isinstance(t.handlers[0].body[0].value, ast.Call):
+        raise TranslationError('solve_volterra_dislocation: try / except structure changed')
+    first, second = t.body[0].value, t.handlers[0].body[0].value
+    out.append(f'def dispatchFirst : String := {_lstr(ast.unparse(first.func))}\n'
+               f'def dispatchCatches : String := {_lstr(ast.unparse(t.handlers[0].type))}\n'
+               f'def dispatchSecond : String := {_lstr(ast.unparse(second.func))}\n'
+               f'def dispatchFirstForward : List String × List (String × String) := {_lforward(*_call_forward(first))}\n'
+               f'def dispatchSecondForward : List String × List (String × String) := {_lforward(*_call_forward(second))}\n\n'
+               '/-- `try: return FIRST(...) except CATCHES: return SECOND(...)`: `firstOk` = the first constructor does not raise\n'
+               '    CATCHES, `secondOk` = the second one does not raise -/\n'
+               'def dispatch (firstOk secondOk : Bool) : Option Solver :=\n'
+               '  if firstOk then some (solverOfName dispatchFirst) else if secondOk then some (solverOfName dispatchSecond) else none\n\n')
+
+
+def _raises(fn):
+    return [ast.unparse(n.exc.func) if isinstance(n.exc, ast.Call) else ast.unparse(n.exc)
+            for n in ast.walk(fn) if isinstance(n, ast.Raise) and n.exc is not None]
+
+
+def _iso_solve(tree, out, pins):
+    fn = _fn_in(tree, 'solve', 'IsotropicVolterraDislocation')[0]
+    out.append(f'def sigIsoSolve : List (String × String) := {_lsig(_sig(fn))}\n\n')
+    body = strip_doc(fn.body)
+    us = [ast.unparse(s) for s in body]
+    want = ["if not C.is_normal('isotropic', atol=0.0, rtol=0.0001):\n    raise ValueError('C must be isotropic elastic constants')",
+            "C = C.normalized_as('isotropic')"]
+    if us[:2] != want:
+        raise TranslationError('IsotropicVolterraDislocation.solve: isotropy test changed')
+    pins += want
+    if not (isinstance(body[2], ast.Expr) and isinstance(body[2].value, ast.Call)
+            and ast.unparse(body[2].value.func) == 'VolterraDislocation.solve'):
+        raise TranslationError('IsotropicVolterraDislocation.solve: base class call not found')
+    out.append(f'def isoSuper : List String × List (String × String) := {_lforward(*_call_forward(body[2].value))}\n\n')
+    st = body[3]
+    if not (isinstance(st, ast.If) and not st.orelse and len(st.body) == 1 and isinstance(st.body[0], ast.Raise)
+            and ast.unparse(st.body[0].exc.func) == 'ValueError' and isinstance(st.test, ast.Compare)
+            and len(st.test.ops) == 1 and isinstance(st.test.ops[0], ast.Gt)):
+        raise TranslationError('IsotropicVolterraDislocation.solve: in-plane test changed')
+    tr = ArrTr({'self:b': ArrTr.ref('b', (3,)), 'self:n': ArrTr.ref('n', (3,)), 'tol': ArrTr.ref('tol', ())}, 'iso in-plane test')
+    lhs, rhs = tr.tr(st.test.left), tr.tr(st.test.comparators[0])
+    if lhs.dims or rhs.dims:
+        raise TranslationError('in-plane test: not scalars')
+    out.append('/-- in-plane test of IsotropicVolterraDislocation.solve: `true` = no ValueError -/\n'
+               f'def isoInPlaneOk (tol : F) (b n : Vec F) : Bool :=\n  !(decide ({rhs.fn([])} < {lhs.fn([])}))\n\n')
+    out.append(f'def isoRaises : List String := [{", ".join(_lstr(r) for r in _raises(fn))}]\n\n')
+
+
+def _ec_transform(tree, out, pins):
+    fn = _fn_in(tree, 'transform', 'ElasticConstants')[0]
+    out.append(f'def sigTransform : List (String × String) := {_lsig(_sig(fn))}\n\n')
+    body = strip_doc(fn.body)
+    us = [ast.unparse(s) for s in body]
+    if len(us) != 6 or us[0] != "axes = np.asarray(axes, dtype='float64')" or us[1] != 'T = axes_check(axes)' \
+            or us[4] != 'C[abs(C / C.max()) < tol] = 0.0' or us[5] != 'return ElasticConstants(Cijkl=C)':
+        raise TranslationError('ElasticConstants.transform: body changed')
+    pins += [us[0], us[1], us[4], us[5]]
+    tr = ArrTr({'T': ArrTr.ref('T', (3, 3)), 'attr:self.Cijkl': ArrTr.ref('C', (3, 3, 3, 3))}, 'ElasticConstants.transform')
+    lets = tr.let('Q', body[2].value)
+    if ast.unparse(body[3].targets[0]) != 'C':
+        raise TranslationError('ElasticConstants.transform: rotated tensor')
+    a = tr.tr(body[3].value)
+    if a.dims != (3, 3, 3, 3):
+        raise TranslationError('ElasticConstants.transform: shape')
+    tr.cnt = 0
+    out.append('/-- the rotation of `ElasticConstants.transform` (before the clean-up) -/\n'
+               f'def rotC (T : Mat F) (C : Ten4 F) : Ten4 F :=\n{lets}  {tr.lam(a)}\n\n')
+
+
+def translate_source():
+    out = ['/- GENERATED by harness/props/c12.py from atomman/defect/{Stroh,VolterraDislocation,solve_volterra_dislocation,\n'
+           '   dislocation_system_transform,IsotropicVolterraDislocation}.py and atomman/core/ElasticConstants.py — do not edit.\n'
+           '   Every definition is assembled from the einsum index strings, operand orders, literals, operators, branch\n'
+           '   conditions, signatures and call arguments read from the CURRENT source with `ast`;\n'
+           '   lean/Proofs/C12_Source.lean proves each one equal to the hand model of lean/Atomman/C12.lean. -/\n'
+           'import Atomman.C12\n'
+           'set_option linter.unusedVariables false\n'
+           'namespace Atomman.Gen.Stroh\nopen Atomman.C12\n\n'
+           'section\nvariable {F : Type} [Add F] [Sub F] [Mul F] [Div F] [Neg F] [NatCast F]\n\n'
+           '/-- `np.array([a, b, c])` of three vectors: the matrix with these rows -/\n'
+           'def rows3 (a b c : Vec F) : Mat F := fun i => if i.val = 0 then a else if i.val = 1 then b else c\n\n']
+    pins = []
+    tree = ast.parse(cm.source(SRC_STROH))
+    cls = 'Stroh'
+    solve = _fn_in(tree, 'solve', cls)[0]
+    out.append(f'def sigStrohSolve : List (String × String) := {_lsig(_sig(solve))}\n\n')
+    chk = _stroh_solve(solve, out, pins)
+    out.append(f'def strohRaises : List String := [{", ".join(_lstr(r) for r in _raises(solve))}]\n\n')
+    # eta
+    fn = _fn_in(tree, 'eta', cls)[0]
+    body = strip_doc(fn.body)
+    tr = ArrTr(_field_env(), 'Stroh.eta')
+    tr.env['pos'] = ArrTr.ref('pos', (3,))
+    if len(body) != 3 or not isinstance(body[2], ast.Return) or not (isinstance(body[2].value, ast.Attribute)
+                                                                      and body[2].value.attr == 'T'):
+        tr.bad('body is no longer x, y, return (...).T')
+    lets = ''
+    for st in body[:2]:
+        if not (isinstance(st, ast.Assign) and isinstance(st.targets[0], ast.Name) and st.targets[0].id in ('x', 'y')):
+            tr.bad(f'statement {ast.unparse(st)}')
+        lets += tr.let(st.targets[0].id, st.value)
+    a = tr.tr(body[2].value.value)      # `.T` puts the point axis first; per point the six values
+    if a.dims != (6,):
+        tr.bad(f'eta per point has shape {a.dims}')
+    tr.cnt = 0
+    out.append('/-- `Stroh.eta` at one point -/\n'
+               f'def eta (m n : Vec F) (p : Fin 6 → F) (pos : Vec F) : Fin 6 → F :=\n{lets}  {tr.lam(a)}\n\n')
+    # K_tensor
+    fn = _fn_in(tree, 'K_tensor', cls)[0]
+    body = strip_doc(fn.body)
+    us = [ast.unparse(s) for s in body]
+    if len(body) != 6 or not _is_ii(body[0]) or us[3:] != ['K = np.real_if_close(K, tol=self.tol)',
+                                                          'K[np.isclose(K / K.max(), 0.0, atol=self.tol)] = 0.0', 'return K']:
+        raise TranslationError('Stroh.K_tensor: body changed: ' + repr(us[3:]))
+    pins += ['K_tensor: ' + x for x in us[3:5]]
+    out.append(_updn_def('K_tensor', _updn(body[1].value, 'Stroh.K_tensor')))
+    tr = ArrTr(_field_env(), 'Stroh.K_tensor')
+    tr.env['ii'] = ArrTr.ref('I', ())
+    tr.env['updn'] = ArrTr.ref('updn_K_tensor', (6,))
+    a = tr.tr(body[2].value)
+    if a.dims != (3, 3) or ast.unparse(body[2].targets[0]) != 'K':
+        raise TranslationError('Stroh.K_tensor: K')
+    tr.cnt = 0
+    out.append('/-- `Stroh.K_tensor` before the round-off clean-up -/\n'
+               f'def kTensor (I : F) (k : Fin 6 → F) (L : Fin 6 → Vec F) : Mat F :=\n  {tr.lam(a)}\n\n')
+    # fields
+    for nm, var, extra, rty in (('displacement', 'disp', '(lnη : Fin 6 → F)', 'Vec F'), ('strain', 'strain', '(pos : Vec F)', 'Mat F'),
+                                ('stress', 'stress', '(pos : Vec F)', 'Mat F')):
+        fn = _fn_in(tree, nm, cls)[0]
+        updn, lets, fp = _stroh_field(fn, var, None)
+        pins += [f'{nm}: ' + x for x in fp]
+        out.append(_updn_def(nm, updn))
+        head = '' if nm == 'displacement' else '  let η : Fin 6 → F := eta m n p pos\n'
+        out.append(f'/-- `Stroh.{nm}` at one point' + (' (`lnη` = np.log(eta) there)' if nm == 'displacement' else '') + ' -/\n'
+                   f'def {nm} {FIELD_PARAMS} {extra} : {rty} :=\n{head}{lets}  {var}\n\n')
+    out.append('end\n\n')
+    # ordered-field part: checks, orientation handling
+    out.append('section\nvariable {F : Type} [Add F] [Sub F] [Mul F] [Div F] [Neg F] [NatCast F] [Zero F] [One F]\n'
+               '  [LE F] [DecidableLE F] [LT F] [DecidableLT F]\n\n'
+               'def count3 (p : Fin 3 → Bool) : Nat := (if p 0 then 1 else 0) + (if p 1 then 1 else 0) + (if p 2 then 1 else 0)\n\n')
+    tb = ast.parse(cm.source(SRC_BASE))
+    _base_class(tb, out, pins)
+    td = ast.parse(cm.source(SRC_DST))
+    fn = _fn_in(td, 'dislocation_system_transform')[0]
+    out.append(f'def sigDST : List (String × String) := {_lsig(_sig(fn, skip_self=False))}\n\n')
+    body = strip_doc(fn.body)
+    k = [i for i, s in enumerate(body) if ast.unparse(s).startswith('ξ_axis = miller.vector_crystal_to_cartesian')]
+    if len(k) != 1:
+        raise TranslationError('dislocation_system_transform: Miller conversion not found')
+    pins += ['dst: assert ' + ast.unparse(s.test) for s in body[:k[0]] if isinstance(s, ast.Assert)]
+    out.append(_find_transform(body[k[0]:], 'dstTransform', 'miller.vector_crystal_to_cartesian(ξ_uvw, box)',
+                               'miller.plane_crystal_to_cartesian(slip_hkl, box)', 'dislocation_system_transform'))
+    ti = ast.parse(cm.source(SRC))
+    _iso_solve(ti, out, pins)
+    out.append('end\n\n')
+    out.append('section\nvariable {F : Type} [Add F] [Sub F] [Mul F] [Div F] [Neg F] [NatCast F]\n\n')
+    _ec_transform(ast.parse(cm.source(SRC_EC)), out, pins)
+    out.append('end\n\n')
+    out.append('/-- the solver a constructor name stands for -/\n'
+               'def solverOfName (s : String) : Solver := if s = "Stroh" then .stroh else .iso\n\n')
+    _dispatcher(ast.parse(cm.source(SRC_DISP)), out)
+    # self-check table
+    out.append('/-- the four self-checks in source order: (left-hand side, target) -/\n'
+               f'def checkTargets : List (String × String) := {_lsig([(c[0], c[1]) for c in chk])}\n\n')
+    out.append('/-- statements that are not Lean definitions, pinned as normalised text (ast.unparse) in source order -/\n'
+               'def pins : List String :=\n  [' + ',\n   '.join(_lstr(p) for p in pins) + ']\n\n')
+    out.append('end Atomman.Gen.Stroh\n')
+    return ''.join(out)
 
 
 # ==========================================================================================
@@ -281,7 +1142,7 @@ import random    # noqa: E402
 import time      # noqa: E402
 
 PROP = 'C12'
-GENERATED = ['IsoVolterra']
+GENERATED = ['IsoVolterra', 'StrohSource']
 F = Fraction
 TOL = 1e-8        # default `tol` of the solvers
 TOLS = [TOL, TOL, TOL, 1e-6, 1e-5]     # the `tol` argument is varied: every clean-up / acceptance threshold must follow it
@@ -1483,6 +2344,146 @@ def _seq_case(ctx, spec, rng, force=()):
                     return
 
 
+BASE_CONFLICTS = [None, None, None, 'xi-only', 'hkl-only', 'miller+transform', 'miller+axes', 'transform+axes',
+                  'line-off-plane', 'axes-skew', 'axes-left', 'm-norm', 'angle', 'cart']
+
+
+def gen_base_spec(rng, it):
+    """one call of VolterraDislocation.solve: a valid problem of gen_spec, or one with conflicting / malformed options."""
+    np = _np()
+    spec = gen_spec(rng, cls=rng.choice(['cubic', 'orthorhombic', 'triclinic']), mn=rng.choice([None, 'rot']))
+    spec['burgers'] = resolve_burgers(spec)
+    cf = BASE_CONFLICTS[it % len(BASE_CONFLICTS)]
+    spec['conflict'] = cf
+    R = _fl(quat_rot(rng.choice(QUATS)))
+    mil = rng.choice(MILLER)
+    if cf in ('xi-only', 'hkl-only', 'miller+transform', 'miller+axes', 'line-off-plane'):
+        spec['route'] = 'miller'
+        spec['transform'] = None
+        spec['xi_uvw'], spec['slip_hkl'] = list(mil[0]), list(mil[1])
+        if spec['box'] is not None and len(spec['box']) != 3:
+            spec['box'] = None
+        if cf == 'line-off-plane':
+            spec['xi_uvw'] = rng.choice([[1, 0, 0], [1, 1, 1], [2, -1, 3]])
+            spec['slip_hkl'] = rng.choice([[1, 1, 1], [1, 0, 1]])
+    if cf == 'transform+axes':
+        spec['route'] = 'transform'
+        spec['transform'] = R
+    if cf == 'axes-skew':
+        spec['route'] = rng.choice(['transform', 'axes'])
+        e = rng.choice([0.1, 1e-3, 1e-6, 3e-8, 1e-9])
+        spec['transform'] = [[1.0, e, 0.0], [0.0, 1.0, 0.0], [0.0, 0.0, 1.0]]
+    if cf == 'axes-left':
+        spec['route'] = rng.choice(['transform', 'axes'])
+        spec['transform'] = rng.choice([[[1.0, 0, 0], [0, 1.0, 0], [0, 0, -1.0]], [[0, 2.0, 0], [1.0, 0, 0], [0, 0, 1.0]]])
+    if cf in ('m-norm', 'angle', 'cart'):
+        m, n = (np.array(v) for v in mn_vectors(spec))
+        if cf == 'm-norm':
+            f = 1 + rng.choice([0.5, -0.5, 2, -2, 100]) * spec['tol']
+            if rng.random() < 0.5:
+                m = m * f
+            else:
+                n = n * f
+        elif cf == 'angle':
+            e = rng.choice([0.5, -0.5, 2, -2, 1e3]) * spec['tol']
+            n = n * math.cos(e) + m * math.sin(e)
+        else:
+            spec['cart_axes'] = True
+            if rng.random() < 0.5:
+                m, n = rng.choice([([0, 0, 1.0], [1.0, 0, 0]), ([-1.0, 0, 0], [0, 1.0, 0]), ([1.0, 1e-9, 0], [0, 1.0, 0])])
+                m, n = np.array(m), np.array(n)
+        spec['m'], spec['n'] = [float(v) for v in m], [float(v) for v in n]
+    return spec
+
+
+def base_kwargs(spec):
+    np = _np()
+    kw = solver_kwargs(spec)
+    cf = spec.get('conflict')
+    R = np.array([[0.0, 1.0, 0.0], [-1.0, 0.0, 0.0], [0.0, 0.0, 1.0]])
+    if cf == 'xi-only':
+        del kw['slip_hkl']
+    elif cf == 'hkl-only':
+        del kw['ξ_uvw']
+    elif cf == 'miller+transform':
+        kw['transform'] = R
+    elif cf == 'miller+axes':
+        kw['axes'] = R
+    elif cf == 'transform+axes':
+        kw['axes'] = R
+    return kw
+
+
+def _base_case(ctx, spec):
+    """the whole of VolterraDislocation.solve against the model's baseSolve: which route, which refusal (class), the stored
+    transform, stiffness and Burgers vector."""
+    import atomman as am
+    np = _np()
+    rep = {'op': 'base', 'spec': spec}
+    kw = base_kwargs(spec)
+    C = am.ElasticConstants(Cij=np.array(spec['cij'], dtype=float))
+    b = list(spec['burgers'])
+    try:
+        s = am.defect.VolterraDislocation(C, b, **kw)
+        impl = 'ok'
+    except AssertionError:
+        impl = 'err:assert'
+    except ValueError:
+        impl = 'err:value'
+    except Exception as e:  # noqa
+        impl = f'raised {type(e).__name__}: {e}'
+    m, n = mn_vectors(spec)
+    box = _mkbox(spec)
+    z3, z9 = np.zeros(3), np.zeros(9)
+    T = kw.get('transform')
+    A = kw.get('axes')
+    given = T if T is not None else A
+    norms = np.linalg.norm(np.asarray(given, dtype=float), axis=1) if given is not None else np.ones(3)
+    n_axis, xi_axis = z3, z3
+    Tpy = np.eye(3)
+    if 'ξ_uvw' in kw and 'slip_hkl' in kw:
+        xi_axis = box.vector_crystal_to_cartesian(kw['ξ_uvw'])
+        xi_axis = xi_axis / np.linalg.norm(xi_axis)
+        n_axis = box.plane_crystal_to_cartesian(kw['slip_hkl'])
+        Tpy = np.array([m, n, np.cross(m, n)]).T.dot(np.array([np.cross(n_axis, xi_axis), n_axis, xi_axis]))
+    elif given is not None:
+        Tpy = (np.asarray(given, dtype=float).T / norms).T
+    norms2 = np.linalg.norm(Tpy, axis=1)
+    b3 = np.array(v3(b), dtype=float)
+    line = ' '.join(['base', cm.fr(spec['tol']), cm.fr(1e-8), cm.fr(RTOL_NP), str(int(bool(spec['cart_axes']))),
+                     str(int(isinstance(spec['m'], str))), str(int(isinstance(spec['n'], str))), cm.frs(m), cm.frs(n),
+                     str(int('ξ_uvw' in kw)), str(int('slip_hkl' in kw)),
+                     str(int(T is not None)), cm.frs(np.asarray(T, dtype=float).ravel() if T is not None else z9),
+                     str(int(A is not None)), cm.frs(np.asarray(A, dtype=float).ravel() if A is not None else z9),
+                     cm.frs(norms), cm.frs(norms2), cm.frs(n_axis), cm.frs(xi_axis), cm.frs(box.vects),
+                     cm.frs(np.array(spec['cij'], dtype=float)), cm.frs(b3)])
+    out = ctx.driver.ask(line)
+    model = out if out.startswith('err:') else 'ok'
+    ctx.stats.case('base:' + str(spec.get('conflict')), (str(spec.get('conflict')), spec['route'], str(spec['m']), str(spec['n']),
+                                                       str(spec['transform']), str(spec['xi_uvw']), str(spec['slip_hkl'])),
+                   nontrivial=impl == 'ok' or spec.get('conflict') is not None,
+                   sample={'op': 'VolterraDislocation.solve', 'options': sorted(kw), 'conflict': spec.get('conflict'),
+                           'implementation': impl, 'model': model})
+    if impl != model:
+        ctx.disagree('base:outcome', f'VolterraDislocation(C, b, {", ".join(sorted(kw))}) [{spec.get("conflict")}]: implementation '
+                     f'{impl}, model {model} (route {spec["route"]}, m={spec["m"]}, n={spec["n"]}, transform={spec["transform"]}, '
+                     f'ξ_uvw={spec["xi_uvw"]}, slip_hkl={spec["slip_hkl"]})', rep)
+        return
+    if impl != 'ok':
+        return
+    vals = cm.unfrs(out)
+    if not cm.allclose(s.transform.ravel(), vals[:9], 0, 1e-13):
+        ctx.disagree('base:transform', f'stored transform {s.transform.tolist()} differs from the model '
+                     f'{[float(v) for v in vals[:9]]} (options {sorted(kw)})', rep)
+    big = float(np.abs(np.array(spec['cij'])).max())
+    if not cm.allclose(s.C.Cij.ravel(), vals[9:45], 1e-12, 2.5 * TOL_C * big):
+        ctx.disagree('base:C', f'stored stiffness differs from the model (options {sorted(kw)}, {spec["cls"]})', rep)
+    bb = float(np.abs(s.burgers).max())
+    if not cm.allclose(s.burgers, vals[45:48], 1e-12, 2.5 * spec['tol'] * bb):
+        ctx.disagree('base:burgers', f'stored Burgers vector {s.burgers.tolist()} differs from the model '
+                     f'{[float(v) for v in vals[45:48]]} (options {sorted(kw)})', rep)
+
+
 def _cguard(ctx, name, spec, fn):
     """an exception inside one correspondence case (a zero Burgers vector, nan, a shape the implementation suddenly returns)
     is a disagreement to report with the case, never a crash of the harness."""
@@ -1537,6 +2538,9 @@ def correspond(ctx):
         _cguard(ctx, 'iso', spec, lambda: _iso_case(ctx, spec, s, gen_points(rng, s, rng.choice([1, 4, 8, 12]), ls=spec['lscale'])))
     for spec in gen_refusals(rng, ctx.n(54, 270)):
         _cguard(ctx, 'refusal', spec, lambda: _refusal_case(ctx, spec))
+    for it in range(ctx.n(56, 420)):
+        spec = gen_base_spec(rng, it)
+        _cguard(ctx, 'base', spec, lambda: _base_case(ctx, spec))
     ctx.extra['t_iso_refusals_s'] = round(time.time() - t1, 2)
     t2 = time.time()
     for it in range(ctx.n(14, 84)):
@@ -3083,6 +4087,83 @@ def _character_sweep(ctx, rng, reps=1):
                 _guarded(ctx, 'orientation', kind, spec, lambda: _orientation_oracle(ctx, spec, s))
 
 
+def _options_sweep(ctx, rng, reps=1):
+    """every combination of the four orientation options through the base class, Stroh and the entry point: refused
+    (AssertionError) exactly for halves of a Miller pair, Miller indices with transform / axes, transform with axes; axes= is
+    transform=; nothing given is the identity; array rows are normalised."""
+    import atomman as am
+    np = _np()
+    for _ in range(reps):
+        spec0 = gen_spec(rng, cls=rng.choice(['cubic', 'orthorhombic', 'triclinic']), route='default', mn=rng.choice([None, 'rot']))
+        spec0['burgers'] = [1.0, 0.5, -0.25]
+        spec0['box'] = None
+        spec0.pop('origin', None)
+        xi, hkl = rng.choice(MILLER)
+        ax = np.array(rng.choice(INT_AXES[1:]), dtype=float) * rng.choice([1.0, 2.0, 0.5])
+        ax2 = np.array(quat_rot(rng.choice(QUATS[1:])), dtype=float)
+        C = am.ElasticConstants(Cij=np.array(spec0['cij'], dtype=float))
+        m, n = mn_vectors(spec0)
+        res = {}
+        for bits in range(16):
+            kw = {'m': spec0['m'], 'n': spec0['n'], 'tol': spec0['tol']}
+            gx, gh, gt, ga = bits & 1, bits & 2, bits & 4, bits & 8
+            if gx:
+                kw['ξ_uvw'] = list(xi)
+            if gh:
+                kw['slip_hkl'] = list(hkl)
+            if gt:
+                kw['transform'] = ax.copy()
+            if ga:
+                kw['axes'] = (ax2 if gt else ax).copy()
+            want = 'err:assert' if (bool(gx) != bool(gh)) or ((gx or gh) and (gt or ga)) or (gt and ga) else 'ok'
+            for which, cls in (('base', am.defect.VolterraDislocation), ('stroh', am.defect.Stroh),
+                               ('auto', am.defect.solve_volterra_dislocation)):
+                try:
+                    o = cls(C, list(spec0['burgers']), **kw)
+                    got = 'ok'
+                except AssertionError:
+                    o, got = None, 'err:assert'
+                except ValueError:
+                    o, got = None, 'err:value'
+                except Exception as e:  # noqa
+                    o, got = None, f'raised {type(e).__name__}: {e}'
+                rep = {'op': 'options', 'spec': spec0, 'bits': bits}
+                ctx.stats.case('options', (which, bits, str(spec0['m']), str(spec0['n']), tuple(xi), tuple(hkl)),
+                               sample={'op': 'orientation options', 'given': sorted(k for k in kw if k not in ('m', 'n', 'tol')),
+                                       'class': which, 'outcome': got})
+                if which != 'base' and want == 'ok' and got == 'err:value':
+                    continue        # an orientation the eigen-solver cannot do (degenerate): not an option matter
+                if got != want:
+                    ctx.violate(f'{which}:options', f'{which}: orientation options {sorted(k for k in kw if k not in ("m", "n", "tol"))} '
+                                f'(ξ_uvw={xi}, slip_hkl={hkl}, transform / axes rows {ax.tolist()}): {got}, expected {want} '
+                                f'(m={spec0["m"]}, n={spec0["n"]})', rep)
+                    continue
+                if o is not None:
+                    res[(which, bits)] = o
+                    T = np.asarray(o.transform)
+                    if bits == 0 and not np.array_equal(T, np.eye(3)):
+                        ctx.violate(f'{which}:options', f'{which}: no orientation option given, stored transform {T.tolist()} is not the identity', rep)
+                    if bits in (4, 8):
+                        u = (ax.T / np.linalg.norm(ax, axis=1)).T
+                        if float(np.abs(T - u).max()) > 1e-14:
+                            ctx.violate(f'{which}:options', f'{which}: {"transform" if bits == 4 else "axes"}={ax.tolist()} stored as '
+                                        f'{T.tolist()}, expected the normalised rows {u.tolist()}', rep)
+                        bexp = u.dot(np.array(spec0['burgers']))
+                        if float(np.abs(o.burgers - bexp).max()) > 1e-12 * float(np.abs(bexp).max()) + 3 * spec0['tol'] * float(np.abs(bexp).max()):
+                            ctx.violate(f'{which}:options', f'{which}: {"transform" if bits == 4 else "axes"}={ax.tolist()}: stored Burgers '
+                                        f'vector {o.burgers.tolist()}, expected {bexp.tolist()}', rep)
+        for which in ('base', 'stroh', 'auto'):
+            a, b = res.get((which, 4)), res.get((which, 8))
+            if a is not None and b is not None:
+                for nm in ('transform', 'burgers'):
+                    if not np.array_equal(getattr(a, nm), getattr(b, nm)):
+                        ctx.violate(f'{which}:options', f'{which}: axes= and transform= give different {nm}: {getattr(b, nm).tolist()} vs '
+                                    f'{getattr(a, nm).tolist()} for rows {ax.tolist()}', {'op': 'options', 'spec': spec0, 'bits': 8})
+                if not np.array_equal(a.C.Cij, b.C.Cij):
+                    ctx.violate(f'{which}:options', f'{which}: axes= and transform= give different stiffness for rows {ax.tolist()}',
+                                {'op': 'options', 'spec': spec0, 'bits': 8})
+
+
 def _build_checked(ctx, spec, kind):
     """build() with every argument as an object the caller keeps: the constructor must not modify any of them."""
     import atomman as am
@@ -3180,6 +4261,10 @@ def search(ctx, broken):
     except Exception as e:  # noqa
         ctx.violate('orientation:character-raises', f'character sweep: {type(e).__name__}: {e}', {'op': 'search'})
     try:
+        _options_sweep(ctx, random.Random(ctx.seed * 7919 + 11), reps=ctx.n(2, 12) * mult)
+    except Exception as e:  # noqa
+        ctx.violate('options:raises', f'orientation-option sweep: {type(e).__name__}: {e}', {'op': 'options'})
+    try:
         _array_sizes(ctx, rng)
     except Exception as e:  # noqa
         ctx.violate('sizes:raises', f'array-size sweep: {type(e).__name__}: {e}', {'op': 'sizes-sweep'})
@@ -3228,6 +4313,15 @@ def replay(ctx, payload):
     elif op == 'sizes' and 'spec' in r:
         _guarded(ctx, 'sizes', r.get('solver', 'stroh'), r['spec'], lambda: _array_size_case(ctx, r['spec'], r.get('solver', 'stroh'), r['N'], r['pseed']))
         print('replay array of', r['N'], 'points: violations now:', len(ctx.violations))
+    elif op == 'options':
+        for i in range(6):
+            _options_sweep(ctx, random.Random(i), reps=2)
+        print('replay orientation options: violations now:', len(ctx.violations))
+    elif op == 'base' and 'spec' in r and ctx.driver is not None:
+        _cguard(ctx, 'base', r['spec'], lambda: _base_case(ctx, r['spec']))
+        for i in range(6):
+            _options_sweep(ctx, random.Random(i), reps=2)
+        print('replay base-class call: disagreements now:', len(getattr(ctx, 'disagreements', [])))
     elif op == 'resolve':
         for _ in range(40):
             _resolve_sequence(ctx, rng)
@@ -3281,6 +4375,24 @@ THEOREMS = [
     'C12.miller_normal_dot_line', 'C12.miller_zone', 'C12.miller_normal_dot_edges', 'C12.miller_normal_neg',
     'C12.miller_normal_side', 'C12.find_transform_normal', 'C12.find_transform_line', 'C12.find_transform_inplane',
     'C12.find_transform_miller_sign',
+    # round 5 — source tie: every definition of Generated/StrohSource.lean (regenerated from Stroh.py, VolterraDislocation.py,
+    # solve_volterra_dislocation.py, dislocation_system_transform.py, IsotropicVolterraDislocation.solve,
+    # ElasticConstants.transform on every run) equals the hand model (Proofs/C12_Source.lean)
+    'C12.gen_contractions_eq_model', 'C12.gen_quadrants_eq_model', 'C12.gen_eigRes_eq_model', 'C12.gen_kNorm_eq_model',
+    'C12.gen_updn_eq_model', 'C12.gen_checks_eq_model', 'C12.gen_checkTargets_pinned', 'C12.gen_eta_eq_model',
+    'C12.gen_kTensor_eq_model', 'C12.gen_displacement_eq_model', 'C12.gen_strain_eq_model', 'C12.gen_stress_eq_model',
+    'C12.gen_Kcoeff_preln_eq_model', 'C12.gen_rotC_eq_model', 'C12.gen_findTransform_eq_model', 'C12.gen_axisOfStr_eq_model',
+    'C12.gen_signatures_eq_model', 'C12.gen_forwarding_eq_model', 'C12.gen_route_eq_model', 'C12.gen_dispatch_eq_model',
+    'C12.gen_dispatch_catches', 'C12.gen_getters_pinned', 'C12.gen_sigTransform_pinned', 'C12.gen_pins_pinned',
+    'C12.gen_orientB_eq_model', 'C12.gen_isoInPlaneOk_eq_model', 'C12.gen_unitOk_eq_model', 'C12.gen_cartOk_eq_model',
+    'C12.gen_perpOk_eq_model', 'C12.gen_checks_stored',
+    # round 5 — API level: option handling, refusals, clean-up bound, end-to-end clauses for every accepted input and for the
+    # field methods as coded
+    'C12.routeOf_refuses_iff', 'C12.routeOf_error_class', 'C12.routeOf_axes_alias', 'C12.routeOf_never_raw',
+    'C12.gen_route_refuses_iff', 'C12.cijkl_minor', 'C12.chop_close', 'C12.orientB_within_tol', 'C12.gen_orientB_within_tol',
+    'C12.baseSolve_ok_iff', 'C12.baseSolve_assert_first', 'C12.baseSolve_axes_alias', 'C12.entry_stress_is_C_strain',
+    'C12.entry_stress_div_free', 'C12.entry_burgers_jump', 'C12.gen_stress_is_C_strain', 'C12.gen_displacement_jump',
+    'C12.gen_falls_as_inv_r', 'C12.gen_K_symm',
 ]
 PARTIAL = {
     'object level': 'history_read / arg_edits_invisible / scale_edit_read are statements about the model World (the solved object '
